@@ -53,6 +53,9 @@ int main(int argc, char** argv) {
   std::vector<ApiGroup> lgroups = api_groups(ol);
   std::stable_sort(lgroups.begin(), lgroups.end(), [](const ApiGroup& a, const ApiGroup& b) { return a.N > b.N; });
   run_groups(lgroups, ol, "module entry points, large ring dimensions");
+  BoxOpts ow = wide_layer(o.cf); ow.inplace = true;
+  std::vector<ApiGroup> wgroups = api_groups(ow);
+  run_groups(wgroups, ow, "module entry points, wide shapes");
   // exported kernels (q120, reim, reim4, cplx, coefficient kernels): const operands and tables
   std::vector<KernelGroup> kg = kernel_groups(args.thorough());
   ctx.parallel(kg.size(), [&](uint64_t gi) {
